@@ -8,6 +8,8 @@ S_NOTE = ("Trusted base: Go toolchain and race detector; simgen's rewrite rules 
 H_NOTE = ("Single client, no faults: these properties have no schedule, clock or fault dimension; what is explored is the space of operation histories. "
           "Trusted base: Go toolchain, the reference model in the harness. Seeded sampling, not enumeration.")
 
+TECH = "seeded operation-history search against an executable reference model in the simulator's fault-free single-client configuration (no interleaving or fault dimension exists)"
+
 claimed = {
   "C04": dict(tier="S", text="Seeded search over schedules of 2-4 simulated goroutines running the real sync2.Map at the granularity of its atomic and mutex operations, plus long single-goroutine sequences; every history checked for linearizability per key with porcupine, Range obligations included; a share of runs under the race detector inside the simulation.", ref="3 (C04)",
               technique="deterministic simulation: seeded cooperative scheduler over the real code, linearizability oracle (porcupine), race detector in-sim"),
@@ -27,6 +29,11 @@ claimed = {
               technique="seeded operation-history search against an executable reference model in the simulator's fault-free single-client configuration (no interleaving or fault dimension exists)"),
   "C02": dict(tier="H", text="Seeded search over insertion/deletion histories from six adversarial families; after every call the shape is reconstructed from the public traversals and the AVL balance of every node, the depth bound and the comparator-call budget are checked. Single client, no faults. Found and now guards the missing rebalancing (fixed).", ref="4 (C02), 2.11",
               technique="seeded operation-history search with a structural invariant oracle in the simulator's fault-free single-client configuration"),
+  "C03": dict(tier="H", text="Seeded search over pairs of sets in all four implementation pairings, with the concurrent set's internal layout driven by its construction history, against a map[T]bool model: algebra results, change reports, counts, every read method, detachment of results. Single client, no faults.", ref="4 (C03), 2.11", technique=TECH),
+  "C06": dict(tier="H", text="Seeded search over list and ring operation histories executed in lock-step on lists.* and the standard library's container/list and container/ring through parallel handle tables that keep removed and foreign handles; return values, lengths, both traversals and every element's neighbours compared after every call. Single client, no faults.", ref="4 (C06), 2.11", technique="seeded operation-history search with the standard library as executable reference, single client, no faults"),
+  "C07": dict(tier="H", text="Seeded search over initial slices and Add/Remove/RemoveAt/Get/Index/Contains histories of slices.Sorted against a sorted-slice model with lower-bound insertion, panics at the bounds and the caller's input slice included. Single client, no faults. Found and now guards Remove(absent) panicking (fixed).", ref="4 (C07), 2.11", technique=TECH),
+  "C11": dict(tier="H", text="Seeded search over Add/RemoveForward/RemoveReverse/Clear/Clone histories of Bimap over tiny universes (all collision patterns) against a two-map model, all getters, Len and Range after every call, clones kept live. Single client, no faults.", ref="4 (C11), 2.11", technique=TECH),
+  "C16": dict(tier="H", text="Seeded search over insertion/removal/peek histories of Queue and Stack from the zero value against a slice model. Single client, no faults.", ref="4 (C16), 2.11", technique=TECH),
 }
 
 not_applicable = {
